@@ -300,11 +300,12 @@ def gen_frame(repo):
     # foot_validate: crc(data) != 0 -> False
     def foot_shape():
         f = find_func(cls, "foot_validate")
-        s = unparse(f)
-        ok = "crc = self._crc16_func(data)" in s and re.search(r"if crc != 0:\n(.*\n)*?\s+return False", s) \
-            and s.rstrip().endswith("return True")
-        if not ok:
-            raise Missing("foot_validate shape (crc over all data must be 0)")
+        stmts = [x for x in f.body if not (isinstance(x, ast.Expr) and isinstance(x.value, ast.Constant))]
+        got = re.sub(r"\s+", " ", "\n".join(unparse(x) for x in stmts))
+        want = re.sub(r"\s+", " ", ast.unparse(ast.parse(
+            "crc = self._crc16_func(data)\nif crc != 0:\n    logger.error('invalid crc16 = %s', hex(crc))\n    return False\nreturn True")))
+        if got != want:
+            raise Missing("foot_validate shape (exactly: CRC over all of data must be 0; no state, no cache)")
         return "true"
     o.d("footValidateIsZeroResidue", "Bool", foot_shape)
 
